@@ -623,7 +623,21 @@ def rule_coh_grid(ctx: Ctx) -> None:
               f'inverse workers are assigned by {norm(ia)[:140] if ia is not None else None}; the candidate groups must be the gradient-worker groups', ia or init.node)
     # per-layer records
     handle_tables: set[str] = set()
-    for rec, tab, member in (('_grad_worker_groups', 'grad_worker_ranks', 'inv_worker'), ('_grad_receiver_groups', 'grad_receiver_ranks', 'self.local_rank')):
+    # the layer variable: the (first) target of the loop over the assignment table; the inverse-worker local: the name
+    # tested for membership in a column (whatever the two are called)
+    lay = 'layer'
+    for lp in nodes:
+        if isinstance(lp, ast.For) and norm(lp.iter) in ('self._inv_assignments', 'self._inv_assignments.items()', 'self._inv_assignments.keys()'):
+            t0 = lp.target.elts[0] if isinstance(lp.target, ast.Tuple) and lp.target.elts else lp.target
+            if isinstance(t0, ast.Name):
+                lay = t0.id
+    iw_name = 'inv_worker'
+    for n_ in nodes:
+        if isinstance(n_, ast.Compare) and len(n_.ops) == 1 and isinstance(n_.ops[0], ast.In) and isinstance(n_.left, ast.Name) and isinstance(n_.comparators[0], ast.Name):
+            lps_ = [lp for lp in flow.enclosing_loops(p, init, n_) if isinstance(lp, ast.For) and norm(lp.iter) == 'grad_worker_ranks' and norm(lp.target) == n_.comparators[0].id]
+            if lps_:
+                iw_name = n_.left.id
+    for rec, tab, member in (('_grad_worker_groups', 'grad_worker_ranks', iw_name), ('_grad_receiver_groups', 'grad_receiver_ranks', 'self.local_rank')):
         sts = [n for n in nodes if isinstance(n, ast.Assign) and len(n.targets) == 1 and isinstance(n.targets[0], ast.Subscript) and norm(n.targets[0].value) == f'self.{rec}']
         good = False
         for st in sts:
@@ -634,7 +648,7 @@ def rule_coh_grid(ctx: Ctx) -> None:
             lv_ = next((x for x in lvars if (f'{member} in {x}', True) in atoms), None)
             if lv_ is not None \
                     and isinstance(v, ast.Call) and norm(v.func) == '_Group' and sorted(k.arg or '' for k in v.keywords) == ['group', 'ranks'] \
-                    and norm(st.targets[0].slice) == 'layer':
+                    and norm(st.targets[0].slice) == lay:
                 kws = {k.arg: k.value for k in v.keywords}
                 h = kws['group']
                 # the handle is looked up, under the very rank set stored, in a local table (whatever it is called)
@@ -646,7 +660,7 @@ def rule_coh_grid(ctx: Ctx) -> None:
             # (`R = None; for ranks in TAB: if self.local_rank in ranks: R = ranks`) and stored under `R is not None`
             for st in sts:
                 v = st.value
-                if not (isinstance(v, ast.Call) and norm(v.func) == '_Group' and sorted(k.arg or '' for k in v.keywords) == ['group', 'ranks'] and norm(st.targets[0].slice) == 'layer'):
+                if not (isinstance(v, ast.Call) and norm(v.func) == '_Group' and sorted(k.arg or '' for k in v.keywords) == ['group', 'ranks'] and norm(st.targets[0].slice) == lay):
                     continue
                 kws = {k.arg: k.value for k in v.keywords}
                 R, h = kws['ranks'], kws['group']
@@ -667,12 +681,12 @@ def rule_coh_grid(ctx: Ctx) -> None:
                     handle_tables.add(h.value.id)
         ctx.check(good, 'COH-GRID', init, f'{rec}[layer] = the element of {tab} containing {member}, with the handle created for the same ranks', rec,
                   f'self.{rec}[layer] is not set to _Group(ranks=ranks, group=ranks_to_communication_group[ranks]) for the element of {tab} that contains {member}', sts[0] if sts else init.node)
-    iw = assigned('inv_worker')
+    iw = assigned(iw_name)
     # the per-layer table may be reached as self._inv_assignments[layer] or as the value variable of
     # `for layer, v in self._inv_assignments.items()`
     vals = {norm(lp.target.elts[1]) for lp in nodes if isinstance(lp, ast.For) and isinstance(lp.target, ast.Tuple) and len(lp.target.elts) == 2
-            and norm(lp.target.elts[0]) == 'layer' and norm(lp.iter) == 'self._inv_assignments.items()'}
-    ctx.check(iw is not None and ('self._inv_assignments[layer]' in norm(iw) or any(re.search(rf'\b{re.escape(v)}\b', norm(iw)) for v in vals)), 'COH-GRID', init, 'the column is selected by an inverse worker of the same layer', 'inv_worker',
+            and norm(lp.target.elts[0]) == lay and norm(lp.iter) == 'self._inv_assignments.items()'}
+    ctx.check(iw is not None and (f'self._inv_assignments[{lay}]' in norm(iw) or any(re.search(rf'\b{re.escape(v)}\b', norm(iw)) for v in vals)), 'COH-GRID', init, 'the column is selected by an inverse worker of the same layer', 'inv_worker',
               f'inv_worker is {norm(iw) if iw is not None else None}', iw or init.node)
     # group handles created for every row and column under the ranks they are looked up by
     okh = False
